@@ -7,13 +7,18 @@
              "ops":[ {"op":"submit","t":n,"lastTs":n|null,"sched":[[station,[bits…]],…]}
                    | {"op":"grow","t":n,"lastTs":n|null}
                    | {"op":"period","t":n,"lastTs":n|null,"sched":null|[[station,[bits…]],…],"by":"run"|"step"}
-                   | {"op":"last_applied","t":iteration,"lastTs":null,"active":[[session,station,arrival],…]} ]}
+                   | {"op":"last_applied","t":iteration,"lastTs":null,"active":[[session,station,arrival],…]}
+                   | {"op":"mark","kind":"restore"|"swap","t":iteration,"lastTs":null} ]}
+             mark = a step of the history that is not a submission (`AcnModel/PilotsHist.lean`):
+             restore = Simulator.from_json(sim.to_json()), swap = update_scheduler; answers with the matrix
+             afterwards (rows in the order of the request's "stations", located by station id)
   optional "brief":true (only the last step in full); or {"batch":[request,…]} ↦ {"batch":[answer,…]}
   answer  : {"steps":[{"err":null|"KeyError"|"InvalidSchedule"|"IndexError","width":n,
                        "rows":[[bits…]], "col":null|[bits…], "spec":[[bits…]]}]}
 -/
 import AcnModel.Wire
 import AcnModel.Pilots
+import AcnModel.PilotsHist
 open Lean Acn Acn.Wire Acn.Pilots
 
 instance : OfNat Float 0 := ⟨0.0⟩
@@ -35,11 +40,20 @@ def getLastTs (o : Json) : Except String (Option Nat) := getOpt o "lastTs" (fun 
 structure St where
   m : Mat Float
   subs : List (Submission Float)   -- every submission made so far, in order
+  ids : List String                -- key order of `network._EVSEs` at the moment (rows of `m` are positional)
+
+/-- rows / applied column are reported per station ID in the order of the request's `stations`
+    (the ground truth), located through the CURRENT key order `s.ids` as `index_of_evse` does -/
+def rowsById (stations : List String) (s : St) : List (List Float) :=
+  stations.map fun st => (List.range s.m.width).map fun τ => getById s.ids s.m st τ
+
+def colById (stations : List String) (s : St) (col : List Float) : List Float :=
+  stations.map fun st => ((s.ids.zip col).lookup st).getD 0
 
 def jStep (stations : List String) (s : St) (err : Option String) (col : Option (List Float)) : Json :=
   let spec := stations.map fun st => (List.range s.m.width).map fun τ => pilotAt stations s.subs st τ
-  Json.mkObj [("err", jOpt jS err), ("width", jN s.m.width), ("rows", jFss s.m.rows),
-              ("col", jOpt jFs col), ("spec", jFss spec)]
+  Json.mkObj [("err", jOpt jS err), ("width", jN s.m.width), ("rows", jFss (rowsById stations s)),
+              ("col", jOpt jFs (col.map (colById stations s))), ("spec", jFss spec)]
 
 def stepOp (stations : List String) (s : St) (o : Json) : Except String (St × Json) := do
   let op ← getStr o "op"
@@ -47,16 +61,16 @@ def stepOp (stations : List String) (s : St) (o : Json) : Except String (St × J
   let lastTs ← getLastTs o
   if op == "submit" then
     let sched ← parseSched (← o.getObjVal? "sched")
-    match updateSchedules stations s.m t lastTs sched with
+    match updateSchedules s.ids s.m t lastTs sched with
     | .ok m' =>
-      let s' : St := ⟨m', s.subs ++ [⟨t, lastTs, sched⟩]⟩
+      let s' : St := ⟨m', s.subs ++ [⟨t, lastTs, sched⟩], s.ids⟩
       pure (s', jStep stations s' none none)
     | .error e =>
       -- the rejected submission is recorded too: the spec must ignore it
-      let s' : St := ⟨s.m, s.subs ++ [⟨t, lastTs, sched⟩]⟩
+      let s' : St := ⟨s.m, s.subs ++ [⟨t, lastTs, sched⟩], s.ids⟩
       pure (s', jStep stations s' (some (errName e)) none)
   else if op == "grow" then
-    let s' : St := ⟨runGrow s.m t lastTs, s.subs⟩
+    let s' : St := ⟨runGrow s.m t lastTs, s.subs, s.ids⟩
     pure (s', jStep stations s' none none)
   else if op == "period" then
     let sched ← getOpt o "sched" parseSched
@@ -66,12 +80,12 @@ def stepOp (stations : List String) (s : St) (o : Json) : Except String (St × J
     -- "by":"step" = a loop trip of step(): growth target stepWidth instead of runWidth
     let byStep := (getStr o "by").toOption == some "step"
     let target := if byStep then stepWidth t lastTs else runWidth t lastTs
-    match periodStepW stations s.m ⟨t, lastTs, sched⟩ target with
+    match periodStepW s.ids s.m ⟨t, lastTs, sched⟩ target with
     | .ok (m', col) =>
-      let s' : St := ⟨m', subs'⟩
+      let s' : St := ⟨m', subs', s.ids⟩
       pure (s', jStep stations s' none (some col))
     | .error (.sched e) =>
-      let s' : St := ⟨s.m, subs'⟩
+      let s' : St := ⟨s.m, subs', s.ids⟩
       pure (s', jStep stations s' (some (errName e)) none)
     | .error .indexError =>
       pure (s, jStep stations s (some "IndexError") none)
@@ -81,11 +95,23 @@ def stepOp (stations : List String) (s : St) (o : Json) : Except String (St × J
       match ← asArr e with
       | [a, b, c] => pure ((← a.getStr?), (← b.getStr?), (← c.getNat?))
       | _ => throw "active entry must be [session, station, arrival]"
-    let r := lastApplied stations s.m t act
+    let r := lastApplied s.ids s.m t act
     let j := match r with
       | some vals => Json.arr (vals.map fun v => Json.arr #[jS v.1, jF v.2]).toArray
       | none => Json.null
     pure (s, Json.mkObj [("err", if r.isSome then Json.null else jS "KeyError"), ("last", j)])
+  else if op == "mark" then
+    let kind ← getStr o "kind"
+    if kind == "restore" then
+      -- one `HStep.restore` of `runHistWith jsonKeyOrder`
+      match restoreMat s.m with
+      | some m' =>
+        let s' : St := ⟨m', s.subs, jsonKeyOrder s.ids⟩
+        pure (s', jStep stations s' none none)
+      | none => pure (s, jStep stations s (some "RestoreShape") none)
+    else if kind == "swap" then
+      pure (s, jStep stations s none none)       -- `HStep.swap`
+    else throw s!"unknown mark {kind}"
   else throw s!"unknown op {op}"
 
 def handleOne (j : Json) : Except String Json := do
@@ -93,7 +119,7 @@ def handleOne (j : Json) : Except String Json := do
   let w ← getNat j "width"
   let ops ← getArr j "ops"
   let brief := (getBool j "brief").toOption.getD false
-  let mut s : St := ⟨Mat.zeros stations.length w, []⟩
+  let mut s : St := ⟨Mat.zeros stations.length w, [], stations⟩
   let mut outs : Array Json := #[]
   let mut k := 0
   for o in ops do
